@@ -174,6 +174,13 @@ def main(tier, seed):
             shared_t.append((f"{nm}@100", pygaps.Adsorbate.find(nm), 100.0))
         except Exception:
             pass
+    # adsorbates whose SHIPPED property dictionary disagrees with the thermodynamic backend (molar mass off by
+    # 14-35 %): the conversion must use what the backend says at the stated temperature
+    for nm, t in (("difluoromethane", 220.0), ("chlorotrifluoromethane", 200.0), ("dichlorodifluoromethane", 250.0)):
+        try:
+            shared_t.append((f"{nm}@{t:g}", pygaps.Adsorbate.find(nm), t))
+        except Exception:
+            pass
     n_base = len(ads_list)
     ads_list += shared_t
     mat = custom_material()
@@ -233,8 +240,10 @@ def main(tier, seed):
     if not thorough:
         # quick: all valid pairs, a seeded half of the degenerate patterns
         head, tail = recs[:n_valid], recs[n_valid:]
-        rng.shuffle(tail)
-        recs = head + tail[: len(tail) // 2]
+        keep = [r for r in tail if r[0]["k"] != "L"]          # pressure and material patterns: all of them
+        rest = [r for r in tail if r[0]["k"] == "L"]
+        rng.shuffle(rest)
+        recs = head + keep + rest[: len(rest) // 2]
     if len(ads_list) > 2:
         # backend sweep: the pairs that consult the backend, for every backend-linked adsorbate
         # (interleaved over the adsorbates so that consecutive calls hit different adsorbates)
